@@ -327,6 +327,24 @@ pub fn gen_c15(run: &mut crate::Run, seed: u64, thorough: bool) {
             }
         }
     }
+    // ---- (a') a contract that OWNS ITSELF (ownership handed to its own address: nobody can sign for it from outside): every
+    //          upgrade / migrate attempt by nobody, a stranger or the former owner is refused like any other unauthorised one
+    for (i, kind) in KINDS.iter().enumerate() {
+        if kind == &"dummy" {
+            continue;
+        }
+        run.scenario("up", &format!("c15-self-owned-{kind}"));
+        run.op("time 1000 10", "time");
+        run.op(&format!("up.new {}", owner.tok()), "construct");
+        let me = Addr::c(170 + i as u8);
+        run.op(&format!("up.transfer_ownership {kind} {} {}", me.tok(), owner.tok()), "transfer-ownership-to-the-contract-itself");
+        for (au, acl) in [("-".to_string(), "nobody"), (stranger.tok(), "stranger"), (owner.tok(), "former-owner")] {
+            run.op(&format!("up.upgrade {kind} self {au}"), &format!("upgrade-self-owned-{acl}"));
+            run.op(&format!("up.flag {kind}"), "q");
+            run.op(&format!("up.migrate {kind} [v] {au}"), &format!("migrate-self-owned-{acl}"));
+            run.op(&format!("up.version {kind}"), "q");
+        }
+    }
     // ---- (b) other hashes and ill-typed migration data on the direct entry points
     for kind in KINDS.iter() {
         run.scenario("up", &format!("c15-misc-{kind}"));
